@@ -1404,6 +1404,15 @@ def c20_programs(tier, sd):
             ops += [["set", ["top", "n"], nv], ["randomize", ["top"]], ["randomize_with", ["top"], [E(["!=", b, lit(2)])]]]
         ops += [["vsc_randomize", [["top"]]]]
         out.append({"tag": "order", "desc": "solve_order %s" % (body,), "prog": pr, "world": [["top", "obj", "Top"]], "ops": ops})
+    # enum-type fields in ordering directives (before / after / in a chain with scalar fields)
+    fe_ = [["e", "enum", "E3", True], ["g", "enum", "E4", True], fld("b", ("u", 4)), fld("n", ("u", 4), False)]
+    eA = ["enum", "E3", "A"]
+    for body in ([["if", [[["==", F("e"), eA], [E(["==", b, lit(1)])]]], None], ["order", [["e"]], [["b"]]]],
+                 [["if", [[["==", F("e"), eA], [E(["==", b, lit(1)])]]], None], ["order", [["b"]], [["e"]]]],
+                 [["implies", ["!=", F("e"), eA], [E(["<", b, lit(3)])]], ["implies", ["==", F("g"), ["enum", "E4", "S"]], [E(["==", F("e"), eA])]],
+                  ["order", [["g"]], [["e"]]], ["order", [["e"]], [["b"]]]]):
+        out.append({"tag": "order_enum", "desc": "solve_order with enum fields %s" % (body,), "prog": one_class(fe_, body, ENUMS), "world": [["top", "obj", "Top"]],
+                    "ops": [["randomize", ["top"]], ["randomize", ["top"]], ["randomize_with", ["top"], [E(["!=", b, lit(2)])]]]})
     # seeded random constraint systems over small-domain fields with random acyclic ordering directives
     for i in range(40 if tier == "quick" else 1500):
         nf = rnd.randint(3, 5)
